@@ -407,7 +407,8 @@ def frame(ctx):
             okT = okT and len(f) == 1 and f[0][1] == 'XI' and f[0][2] == 'HKL' and equal(f[0][3], arr([0, 1, 0])) and equal(f[0][4], arr([0, 0, 1])) and f[0][5] == 'BOX'
         elif kw:
             f = [r for r in rec if r[0] == 'axes_check']
-            okT = okT and len(f) == 1 and is_arr(f[0][1]) and equal(np.asarray(f[0][1], dtype=object), GIVEN)
+            # the vectors as given are checked (normalised) first; checking the checked matrix again changes nothing
+            okT = okT and len(f) >= 1 and is_arr(f[0][1]) and equal(np.asarray(f[0][1], dtype=object), GIVEN) and all(is_arr(x[1]) and equal(np.asarray(x[1], dtype=object), TM) for x in f[1:])
         ctx.ob('FRAME', loc, '%s: the rotation is %s' % (tag, {'Miller line and plane': 'built from ξ_uvw, slip_hkl, m, n and the box', 'transform': 'the checked transform', 'axes (legacy)': 'the checked axes', 'no orientation': 'the identity'}[tag]),
                bool(okT), str(rec)[:200], node=sfn, key=tag + ' transform')
         ct = [r for r in rec if r[0] == 'C.transform']
